@@ -179,6 +179,42 @@ def rule_NON(FA):
             out.append(Inst('R-NON', key, 'violation', ws[0][3],
                             '%s overwrites existing bits but updates the cached count of ones (`%s`) without reading the overwritten bits' % (f['name'], show(ws[0][2])[:80]), props,
                             sample={'updates': [show(w[2])[:100] for w in ws]}))
+    # extend_with_zeros keeps data.len() == ceil(n_bits / LINE_BITS): push starts a new line exactly at n_bits % LINE_BITS == 0
+    ez = (FA.by_base_name.get((base, 'extend_with_zeros'), []) or [None])[0]
+    lay = (FA.layouts.get('bitvector::DataLine') or {}).get('layout') or {}
+    line_bits = lay.get('size', 0) * 8
+    key = 'R-NON|bitvector::BitVectorMut::extend_with_zeros|line count'
+    if ez is None or not line_bits:
+        out.append(Inst('R-NON', key, 'violation', '', 'extend_with_zeros / DataLine layout not found (anchor lost)', props))
+    else:
+        E = FA.fn(ez)
+        found = False
+        for bi, t in E.calls():
+            if t['f']['fn']['name'] in ('resize_with', 'resize') and len(t['args']) >= 2:
+                found = True
+                cnt = norm(E.operand_term(t['args'][1]))
+                ok = False
+                for st in [cnt]:
+                    x = st
+                    if x[0] == 'bin' and x[1] in ('Shr', 'Div') and x[3][0] == 'const':
+                        d = (1 << x[3][1]) if x[1] == 'Shr' else x[3][1]
+                        b0, c = x[2], 0
+                        if b0[0] == 'bin' and b0[1] == 'Add':
+                            for u, v in ((b0[2], b0[3]), (b0[3], b0[2])):
+                                if u[0] == 'const':
+                                    b0, c = v, u[1]
+                                    break
+                        ok = d == line_bits and c == line_bits - 1 and contains(b0, ('field', SELF, 'n_bits'))
+                    if x[0] == 'call' and x[1].split('::')[-1] == 'div_ceil' and len(x[2]) == 2:
+                        ok = x[2][1] == ('const', line_bits) and contains(x[2][0], ('field', SELF, 'n_bits'))
+                if ok:
+                    out.append(Inst('R-NON', key, 'ok', t['line'], 'data is resized to ceil(n_bits / %d) lines' % line_bits, props, sample={'count': show(cnt)}))
+                else:
+                    out.append(Inst('R-NON', key, 'violation', t['line'],
+                                    'data is resized to `%s` lines, not ceil(n_bits / %d): push starts a new line exactly when n_bits %% %d == 0, so a spare or missing line shifts every later bit' % (show(cnt)[:80], line_bits, line_bits), props,
+                                    sample={'count': show(cnt)}))
+        if not found:
+            out.append(Inst('R-NON', key, 'violation', ez['span'], 'no resize of the line vector found (anchor lost)', props))
     # R-CONV
     for a, b in (('bitvector::BitVector', 'bitvector::BitVectorMut'), ('bitvector::BitVectorMut', 'bitvector::BitVector')):
         cands = [f for f in FA.by_base_name.get((a, 'from'), []) if f['impl_trait'] == 'std::convert::From' and base_type(f['locals'][1]) == b]
